@@ -380,7 +380,7 @@ func runConnCase(c ConnCase, ctx *hx.Ctx) *hx.Failure {
 	return nil
 }
 
-func TestPropConnAccounting(t *testing.T) { hx.Check(t, 3000, genConnCase, runConnCase) }
+func TestPropConnAccounting(t *testing.T) { hx.Check(t, 6000, genConnCase, runConnCase) }
 
 // ---------------------------------------------------------------- B/C. PipelineTransport: dialing phase and established connection
 
@@ -922,7 +922,7 @@ func runReuse(c ReuseCase, ctx *hx.Ctx) *hx.Failure {
 	return nil
 }
 
-func TestPropReuseOnePerConn(t *testing.T) { hx.Check(t, 600, genReuse, runReuse) }
+func TestPropReuseOnePerConn(t *testing.T) { hx.Check(t, 1500, genReuse, runReuse) }
 
 func TestReplay(t *testing.T) {
 	switch hx.ReplayTarget() {
